@@ -591,9 +591,11 @@ func (b *RefinementBuilder) NewValue() (ret Value) {
 		}
 	}
 
+	// The new value gets its own copy of the refinement, so that further
+	// calls on this builder cannot change a value it has already produced.
 	return Value{
 		ty: b.orig.ty,
-		v:  &unknownType{refinement: b.wip},
+		v:  &unknownType{refinement: b.wip.copy()},
 	}
 }
 
